@@ -669,9 +669,35 @@ fn random_history(rng: &mut Rng, limit: Option<usize>, preload: &[Op], nops: usi
                 let o = g.random_op(rng);
                 g.apply(o);
             }
+            // the value to preserve: a fresh small heap atom (AfterNewBytes), a substring of an atom
+            // older than the checkpoint (AfterOldBytes), or any recent node
+            let old_heap: Vec<usize> = g
+                .sess
+                .valid_nodes()
+                .into_iter()
+                .filter(|(i, n)| *i < k && n.object_type() == ObjectType::Bytes)
+                .map(|(i, _)| i)
+                .collect();
+            match rng.below(4) {
+                0 | 1 => {
+                    let m = if rng.chance(1, 4) { 60 } else { 30 };
+                    let n = 1 + rng.below(m) as usize;
+                    let mut b = rng.bytes(n);
+                    b[0] |= 0x80;
+                    g.apply(Op::Atom(b));
+                }
+                2 if !old_heap.is_empty() => {
+                    let x = *rng.pick(&old_heap);
+                    let len = g.sess.a.atom_len(g.sess.node(x).unwrap()) as u32;
+                    let s = rng.below(len as u64 + 1) as u32;
+                    let e = s + rng.below((len - s) as u64 + 1) as u32;
+                    g.apply(Op::Sub(x, s, e));
+                }
+                _ => {}
+            }
             let nodes: Vec<usize> = g.sess.valid_nodes().into_iter().map(|(i, _)| i).collect();
             if !nodes.is_empty() && g.sess.is_tcp(k) {
-                let x = HistGen::pick_recent(rng, &nodes);
+                let x = if rng.chance(3, 4) { *nodes.last().unwrap() } else { HistGen::pick_recent(rng, &nodes) };
                 g.apply(Op::Mrst(k, x));
             }
             i += 6;
